@@ -39,6 +39,8 @@ typedef struct mc_sys {
     void  (*probe)(void *st);                       /* may be NULL */
     void  (*canon)(void *st, char *buf, size_t n);
     void  (*teardown)(void *st);
+    int   lookahead;                                /* 1: a transition that lands on an already-seen canonical key is still extended by every op once
+                                                       (one-step differential between the concrete state reached here and the key's representative) */
 } mc_sys;
 
 typedef void (*mc_case_fn)(uint64_t idx, void *ctx);
